@@ -191,7 +191,7 @@ def classify(meta, r, prop):
     return "undecided", [], "unrecognised Kani output"
 
 
-DERIVE_VARS = ("closed set: the sample definitions of kani-harness/src/types.rs and nm.rs "
+DERIVE_VARS = ("closed set: the sample definitions of kani-harness/src/types.rs, nm.rs and c17_zero.rs "
                "(the obligation is the type-correctness of the derive output, decided by rustc)")
 
 
@@ -220,8 +220,9 @@ def derive_compile_errors(out):
         return []
     for b in real:
         loc = re.search(r"--> (\S+?):\d+:\d+", b)
-        in_samples = bool(loc) and re.search(r"src/(types|nm)\.rs$", loc.group(1))
-        from_derive = re.search(r"derive macro `(epserde::)?Epserde`|in this derive macro expansion", b)
+        in_samples = bool(loc) and re.search(r"src/(types|nm|c17_zero)\.rs$", loc.group(1))
+        from_derive = re.search(r"derive macro `(epserde::)?Epserde`|in this derive macro expansion|"
+                                r"\|\s*#\[derive\([^\n]*Epserde[^\n]*\n[^\n]*\|\s+\^+", b)
         if not (in_samples and from_derive):
             return []
     return real
